@@ -634,9 +634,14 @@ func ruleProcPhases(c *Ctx) []Obligation {
 	okk = len(fixes) > 0
 	for _, f := range fixes {
 		h := loopHeaderOf(f.Block())
+		viaHelper := f.Common().StaticCallee() != fix // the pass lives in a helper: its call must dominate
 		eachInstr(proc, func(in ssa.Instruction) {
 			if r, isr := in.(*ssa.Return); isr && len(retry) > 0 && reaches(retry[0], r) {
-				if h == nil || !h.Dominates(r.Block()) {
+				if viaHelper {
+					if !dominates(f, r) {
+						okk = false
+					}
+				} else if h == nil || !h.Dominates(r.Block()) {
 					okk = false
 				}
 			}
